@@ -148,8 +148,27 @@ def struct_program(rng):
         t2, s2, c2, n2 = atom(allow_const=not c1, nonzero=ordered, allow_reg=not (t1.startswith("r") or t1.endswith("@X") or t1.endswith("@Y")))
         return ["cmp:%s:%s:%s" % (o[0], t1, t2)], "%s %s %s" % (s1, o[1], s2)
 
-    def stmt(depth):
+    def stmt(depth, in_loop=False):
         k = rng.random()
+        if in_loop and rng.random() < 0.16:
+            # stage 5: leaving the loop / its iteration early. The unbraced `if (c) break;` is a form of its own
+            # (one branch to the loop's label); the braced ones are ordinary if statements
+            j = rng.random()
+            if j < 0.15:
+                return ["brk"], "break;"
+            if j < 0.3:
+                return ["cont"], "continue;"
+            ct, cs = cond()
+            if j < 0.55:
+                return ["ifbrk"] + ct, "if (%s) break;" % cs
+            if j < 0.75:
+                return ["ifcont"] + ct, "if (%s) continue;" % cs
+            if j < 0.85:
+                return ["if"] + ct + ["brk"], "if (%s) { break; }" % cs
+            if j < 0.93:
+                ft, fs = flat()
+                return ["if"] + ct + ["{", ft, "cont", "}"], "if (%s) { %s continue; }" % (cs, fs)
+            return ["ife"] + ct + ["cont", "brk"], "if (%s) { continue; } else { break; }" % cs
         if depth >= 3 or k < 0.45:
             t, s_ = flat()
             return [t], s_
@@ -157,33 +176,33 @@ def struct_program(rng):
             return ["skip"], "{ }"
         if k < 0.6:
             n = rng.randint(1, 3)
-            parts = [stmt(depth + 1) for _ in range(n)]
+            parts = [stmt(depth + 1, in_loop) for _ in range(n)]
             return ["{"] + sum([p[0] for p in parts], []) + ["}"], "{ " + " ".join(p[1] for p in parts) + " }"
         if k < 0.72:
-            ct, cs = cond(); bt, bs = stmt(depth + 1)
+            ct, cs = cond(); bt, bs = stmt(depth + 1, in_loop)
             return ["if"] + ct + bt, "if (%s) %s" % (cs, brace(bs))
         if k < 0.82:
-            ct, cs = cond(); bt, bs = stmt(depth + 1); et, es = stmt(depth + 1)
+            ct, cs = cond(); bt, bs = stmt(depth + 1, in_loop); et, es = stmt(depth + 1, in_loop)
             return ["ife"] + ct + bt + et, "if (%s) %s else %s" % (cs, brace(bs), brace(es))
         counting = rng.random() < 0.6          # loops that count, so that most of them terminate
         vt, v = lvalue()
         if k < 0.89:
-            ct, cs = cond(); bt, bs = stmt(depth + 1)
+            ct, cs = cond(); bt, bs = stmt(depth + 1, True)
             if counting:
                 ct, cs = rng.choice([(["t:" + vt], v), (["cmp:ne:%s:c0" % vt], "%s != 0" % v), (["cmp:ne:c0:%s" % vt], "0 != %s" % v),
                                      (["and", "t:" + vt, "cmp:ne:%s:c200" % vt], "(%s && %s != 200)" % (v, v))])
-                bt, bs = ["{"] + bt + ["dec:" + vt, "}"], "{ %s %s--; }" % (bs, v)
+                bt, bs = ["{", "dec:" + vt] + bt + ["}"], "{ %s--; %s }" % (v, bs)     # counter first: a `continue` must not skip it
             return ["wh"] + ct + bt, "while (%s) %s" % (cs, brace(bs))
         if k < 0.95:
-            ct, cs = cond(); bt, bs = stmt(depth + 1)
+            ct, cs = cond(); bt, bs = stmt(depth + 1, True)
             if counting:
                 n = rng.randint(1, 6)
                 ct, cs = rng.choice([(["cmp:lt:%s:c%d" % (vt, n)], "%s < %d" % (v, n)), (["cmp:ne:%s:c%d" % (vt, n)], "%s != %d" % (v, n)),
                                      (["cmp:le:%s:c%d" % (vt, n)], "%s <= %d" % (v, n)), (["cmp:gt:c%d:%s" % (n, vt)], "%d > %s" % (n, v)),
                                      (["not", "cmp:ge:%s:c%d" % (vt, n)], "!(%s >= %d)" % (v, n))])
-                bt, bs = ["{"] + bt + ["inc:" + vt, "}"], "{ %s %s++; }" % (bs, v)
+                bt, bs = ["{", "inc:" + vt] + bt + ["}"], "{ %s++; %s }" % (v, bs)
             return ["do"] + bt + ct, "do %s while (%s);" % (brace(bs), cs)
-        it, is_ = flat(); ut, us = flat(); ct, cs = cond(); bt, bs = stmt(depth + 1)
+        it, is_ = flat(); ut, us = flat(); ct, cs = cond(); bt, bs = stmt(depth + 1, True)
         if counting:
             n = rng.randint(1, 6)
             if rng.random() < 0.5:
@@ -202,8 +221,8 @@ def struct_program(rng):
         # always braced (dangling else)
         if s_.startswith("{"):
             return s_
-        if s_.startswith("if") or rng.random() < 0.5:
-            return "{ " + s_ + " }"
+        if s_.startswith("if") or s_ in ("break;", "continue;") or rng.random() < 0.5:
+            return "{ " + s_ + " }"     # (an unbraced `if (c) break;` is a form of its own: written only on purpose)
         return s_
 
     toks, lines = [], []
@@ -247,7 +266,7 @@ def run(chk):
         ptoks = toks[1:] if toks and toks[0].startswith("abs=") else toks
         chk.case(key=src, nontrivial=any(t in ("if", "ife", "wh", "do", "for") for t in toks))
         for t in toks:
-            if t in ("and", "or", "not", "if", "ife", "wh", "do", "for"):
+            if t in ("and", "or", "not", "if", "ife", "wh", "do", "for", "brk", "cont", "ifbrk", "ifcont"):
                 chk.count("struct_" + t)
         chk.count("struct_programs")
         if r["status"] != "ok":
